@@ -49,6 +49,7 @@ Definition to_int (x : Z) : Z := if x <? 2147483648 then x else x - two32.
 Record variant := mkVariant {
   v_ld_need : Z;          (* N of `(sm->state + N) > sm->state_end` in sm_load_u32 *)
   v_check_first : bool;   (* that test stands before the tag byte is read *)
+  v_str_check : bool;     (* sm_load_string tests `(sm->state + l) > sm->state_end` before it copies *)
   v_links_prev : bool;    (* the send-queue loop of restore stores item->prev *)
   v_err_queue : bool;     (* err_reload empties the send queue and zeroes the counters *)
   v_err_null : bool;      (* err_reload clears conn->sm_state *)
@@ -56,11 +57,11 @@ Record variant := mkVariant {
   v_idnul : bool }.       (* an id with an embedded NUL is refused *)
 
 Definition gen_variant : variant :=
-  mkVariant ld_need ld_check_first rst_links_prev rst_err_frees_queue rst_err_clears_sm
+  mkVariant ld_need ld_check_first ld_str_check rst_links_prev rst_err_frees_queue rst_err_clears_sm
             rst_checks_trailing rst_checks_idnul.
-Definition fixed_variant : variant := mkVariant 5 true true true true true true.
+Definition fixed_variant : variant := mkVariant 5 true true true true true true true.
 (* libstrophe 0.14.0 as released *)
-Definition orig_variant : variant := mkVariant 4 false false false false false false.
+Definition orig_variant : variant := mkVariant 4 false true false false false false false.
 
 (* ------------------------------------------------------------------------------------------------ *)
 (* heap of queue elements *)
@@ -329,8 +330,9 @@ Definition load_u32 (v : variant) (s : list Z) (ty : Z) : lres Z :=
 Definition load_string (v : variant) (s : list Z) : lres (list Z * Z) :=
   match load_u32 v s ld_tag_str with
   | LOk l s1 =>
-    if l >? zlen s1 then LReject else
+    if v_str_check v && (l >? zlen s1) then LReject else
     if u32 (l + 1) <? l + 1 then LOOB else            (* strophe_alloc(l + 1) computed in uint32_t *)
+    if l >? zlen s1 then LOOB else                    (* the memcpy of l bytes from sm->state runs past state_end *)
     LOk (firstn (Z.to_nat l) s1 ++ [0], l) (skipn (Z.to_nat l) s1)
   | LReject => LReject
   | LOOB => LOOB
